@@ -25,7 +25,21 @@ type htmlReplay struct {
 	Kind  string `json:"kind"`
 	Input []int  `json:"input"`
 	Soft  int    `json:"soft"`
-	Raw   int    `json:"raw"` // 1 = IgnoreRaw false (only for documents without raw HTML nodes)
+	Raw   int    `json:"raw"`             // 1 = IgnoreRaw false (only for documents without raw HTML nodes)
+	Filt  int    `json:"filt,omitempty"`  // FilterTag: 0 nil, 1 GFM, 2 rejects every tag, 3 rejects none - with IgnoreRaw set none of them may matter
+	Route int    `json:"route,omitempty"` // 1 = blocks read one line per Read through NewBlockParser, all kept, rendered after the last one was returned
+}
+
+func c07Filter(k int) func([]byte) bool {
+	switch k {
+	case 1:
+		return commonmark.FilterTagGFM
+	case 2:
+		return func([]byte) bool { return false }
+	case 3:
+		return func([]byte) bool { return true }
+	}
+	return nil
 }
 
 func hasRawHTML(n commonmark.Node) bool {
@@ -41,13 +55,19 @@ func hasRawHTML(n commonmark.Node) bool {
 	return false
 }
 
-func renderWith(input []byte, soft int, ignoreRaw bool, filter func([]byte) bool) (out []byte, anyRaw bool, pm string) {
+func renderWith(input []byte, soft int, ignoreRaw bool, filter func([]byte) bool, route int) (out []byte, anyRaw bool, pm string) {
 	defer func() {
 		if r := recover(); r != nil {
 			pm = fmt.Sprint(r)
 		}
 	}()
-	blocks, refs := commonmark.Parse(append([]byte(nil), input...))
+	var blocks []*commonmark.RootBlock
+	var refs commonmark.ReferenceMap
+	if route == 1 {
+		blocks, refs, _ = streamParseFrom(&lineReader{data: append([]byte(nil), input...)})
+	} else {
+		blocks, refs = commonmark.Parse(append([]byte(nil), input...))
+	}
 	for _, b := range blocks {
 		if hasRawHTML(b.AsNode()) {
 			anyRaw = true
@@ -86,11 +106,11 @@ func cmdHTML(args []string) *Result {
 	sw := newShardWriter(args[1], envInt("VERIF_SHARDS", 8))
 	defer sw.close()
 	seenOut := map[uint64]struct{}{}
-	record := func(input []byte, soft int, raw int, dedupe bool) {
-		out, anyRaw, pm := renderWith(input, soft, raw == 0, nil)
-		rp := &htmlReplay{Kind: "c07", Input: ints(input), Soft: soft, Raw: raw}
+	record := func(input []byte, soft int, raw int, filt int, route int, dedupe bool) {
+		out, anyRaw, pm := renderWith(input, soft, raw == 0, c07Filter(filt), route)
+		rp := &htmlReplay{Kind: "c07", Input: ints(input), Soft: soft, Raw: raw, Filt: filt, Route: route}
 		if pm != "" {
-			res.addCandidate(Candidate{Sig: map[string]any{"input": ints(input), "class": "panic"}, Record: map[string]any{"kind": "c07", "input": ints(input), "soft": soft, "raw": raw}, What: fmt.Sprintf("%q: %s", input, pm)})
+			res.addCandidate(Candidate{Sig: map[string]any{"input": ints(input), "class": "panic"}, Record: map[string]any{"kind": "c07", "input": ints(input), "soft": soft, "raw": raw, "filt": filt, "route": route}, What: fmt.Sprintf("%q: %s", input, pm)})
 			return
 		}
 		if raw == 1 && anyRaw {
@@ -126,16 +146,21 @@ func cmdHTML(args []string) *Result {
 		for sc.Scan() {
 			var r htmlReplay
 			mustUnmarshal(sc.Bytes(), &r)
-			record(bytesOf(r.Input), r.Soft, r.Raw, false)
+			record(bytesOf(r.Input), r.Soft, r.Raw, r.Filt, r.Route, false)
 		}
 	case "c07":
 		thorough := os.Getenv("VERIF_TIER") == "thorough"
+		ndoc := 0
 		emit := func(doc []byte) {
 			d := append([]byte(nil), doc...)
+			ndoc++
 			for soft := 0; soft < 3; soft++ {
-				record(d, soft, 0, true)
+				record(d, soft, 0, 0, 0, true)
 			}
-			record(d, int(seed())%3, 1, true)
+			// raw HTML ignored WITH a tag filter installed (the filter must not bring raw HTML back), on blocks that came through the
+			// streaming entry point line by line and were all kept until the last one had been returned
+			record(d, ndoc%3, 0, 1+ndoc%3, 1, true)
+			record(d, int(seed())%3, 1, 0, 0, true)
 		}
 		n := 3
 		if thorough {
